@@ -4,7 +4,7 @@ Driver entry for property C18 (model: Molli.Model.Jobmap). One request payload (
   hist <r|s> <items> <predest> <plans> <runs>
      items   = keyhex:subs,…       subs = `-` (single job) or the number of sub-jobs   (keys and job names hex-encoded UTF-8)
      predest = key=markerhex,… | -  (entries of the destination before the first run)
-     plans   = job=PLAN,… | -       PLAN = S | F<c> | W<c> | K<signal> | N<n>/<c> | U<n>/<c> | O      (default S)
+     plans   = job=PLAN[+PLAN…],… | -   one PLAN per command of the job;       PLAN = S | F<c> | W<c> | K<signal> | N<n>/<c> | U<n>/<c> | O      (default S)
      runs    = tag:strict[:reset];…  strict = 1 | 0; reset = 1: the destination is replaced by an empty one before the run
   → per run, joined by ` | `:
      `ex=<executed jobs, sorted,> dest=<key=valuehex sorted,> cache=<job=code/payloadhex|- sorted,> att=<job=n,>`
@@ -52,8 +52,8 @@ def parseKV? {α : Type} (f : String → Option α) (s : String) : Option (Strin
   | _ => none
 
 /-- a run and whether the destination is replaced by a new empty one before it -/
-def parseRun? (plans : List (String × Plan)) (s : String) : Option (Run × Bool) :=
-  let mk (t st : String) : Run := { tag := t, plan := fun j => ((plans.find? (·.1 == j)).map (·.2)).getD .ok, strict := st == "1" }
+def parseRun? (plans : List (String × List Plan)) (s : String) : Option (Run × Bool) :=
+  let mk (t st : String) : Run := { tag := t, plan := fun j => ((plans.find? (·.1 == j)).map (·.2)).getD [.ok], strict := st == "1" }
   match s.splitOn ":" with
   | [t, st] => some (mk t st, false)
   | [t, st, rs] => some (mk t st, rs == "1")
@@ -75,7 +75,7 @@ def handle (payload : String) : String :=
   match words payload with
   | ["hist", v, items, predest, plans, runs] =>
     match (splitL items ",").mapM parseItem?, (splitL predest ",").mapM (parseKV? strOfHex?),
-          (splitL plans ",").mapM (parseKV? parsePlan?) with
+          (splitL plans ",").mapM (parseKV? fun v => (v.splitOn "+").mapM parsePlan?) with
     | some src, some pre, some plans =>
       match (splitL runs ";").mapM (parseRun? plans) with
       | none => "err:bad-request"
